@@ -528,6 +528,21 @@ func (fc *FuncCtx) applyContract(st *State, call *ast.CallExpr, fn *types.Func, 
 			}
 		}
 	}
+	// `opt lastargs <callee>`: ghosts <callee>_arg0, _arg1, ... are the arguments of the latest call of it
+	if fc.contract != nil {
+		for _, want := range strings.Fields(fc.contract.Opts["lastargs"]) {
+			if want == fn.Name() {
+				ai := 0
+				for _, a := range args {
+					if sig.Recv() != nil && recvExpr != nil && a.expr == recvExpr && ai == 0 && a.name == args[0].name && len(args) == sig.Params().Len()+1 {
+						continue
+					}
+					st.ghost[want+"_arg"+strconv.Itoa(ai)] = a.pre
+					ai++
+				}
+			}
+		}
+	}
 	// `opt lasterr <callee>`: ghost <callee>_err is the error returned by the latest call of it
 	if fc.contract != nil && len(results) > 0 && types.TypeString(results[len(results)-1].T, nil) == "error" {
 		for _, want := range strings.Fields(fc.contract.Opts["lasterr"]) {
